@@ -293,23 +293,24 @@ func DelayFor(profile string, seed uint64, name string, occ int) time.Duration {
 	case "none":
 		return 0
 	case "ns":
-		return time.Duration(x%1000 + 1)
+		// Sub-millisecond, nanosecond-granular: two events practically never tie.
+		return time.Duration(x%1000000 + 1)
 	case "wide":
-		switch (x >> 20) % 16 {
+		switch (x >> 40) % 16 {
 		case 0:
 			return time.Duration(x%uint64(20*time.Second) + 1)
 		case 1, 2:
-			return time.Duration(x%uint64(50*time.Millisecond) + 1)
+			return time.Duration(x%uint64(500*time.Millisecond) + 1)
 		}
-		return time.Duration(x%100000 + 1)
+		return time.Duration(x%uint64(10*time.Millisecond) + 1)
 	default: // mixed
-		switch (x >> 20) % 32 {
+		switch (x >> 40) % 32 {
 		case 0:
-			return time.Duration(x%uint64(200*time.Millisecond) + 1)
+			return time.Duration(x%uint64(2*time.Second) + 1)
 		case 1, 2, 3:
-			return time.Duration(x%uint64(time.Millisecond) + 1)
+			return time.Duration(x%uint64(100*time.Millisecond) + 1)
 		}
-		return time.Duration(x%20000 + 1)
+		return time.Duration(x%uint64(5*time.Millisecond) + 1)
 	}
 }
 
